@@ -471,7 +471,7 @@ func cmdCheck(args []string) {
 		}
 	}
 	if budgetS == 0 {
-		budgetS = 40
+		budgetS = 60
 		if tier == "thorough" {
 			budgetS = 780
 		}
